@@ -121,6 +121,30 @@ def handmade(minor):
     l = copy.deepcopy(b3); l['cells'][0]['outputs'].append({'output_type': 'stream', 'name': 'stderr', 'text': 'L\n'})
     r = copy.deepcopy(b3); r['cells'][0]['outputs'].append({'output_type': 'display_data', 'data': {'text/plain': 'R'}, 'metadata': {}})
     out.append(('output_insert_insert', b3, l, r))
+    # one side only INSERTS an output in front of a base output that the other side modifies / removes (chunk types
+    # A/P, A/R, P/A, R/A on /cells/*/outputs: one side of the rendered conflict is the "<unchanged>" base output)
+    o1 = {'output_type': 'stream', 'name': 'stdout', 'text': 'first\n'}
+    o2 = {'output_type': 'display_data', 'data': {'text/plain': 'second'}, 'metadata': {}}
+    bo = _nb(minor, [_code(minor, 'show()\n', 0, outputs=[o1, o2], ec=3)])
+    new_out = {'output_type': 'stream', 'name': 'stderr', 'text': 'warning\n'}
+    for at in (0, 1):
+        ins = copy.deepcopy(bo); ins['cells'][0]['outputs'].insert(at, copy.deepcopy(new_out))
+        mod = copy.deepcopy(bo)
+        if at == 0: mod['cells'][0]['outputs'][0]['text'] = 'first, changed\n'
+        else: mod['cells'][0]['outputs'][1]['data']['text/plain'] = 'second, changed'
+        rem = copy.deepcopy(bo); del rem['cells'][0]['outputs'][at]
+        out.append(('output_insert_vs_modify_at%d' % at, bo, ins, mod)); out.append(('output_modify_vs_insert_at%d' % at, bo, copy.deepcopy(mod), copy.deepcopy(ins)))
+        out.append(('output_insert_vs_remove_at%d' % at, bo, copy.deepcopy(ins), rem)); out.append(('output_remove_vs_insert_at%d' % at, bo, copy.deepcopy(rem), copy.deepcopy(ins)))
+    # a genuine conflict inside a metadata dict (decisions are lifted back to the dict by record-conflict) next to two
+    # non-conflicting one-sided edits below one common sub-key -- notebook level and cell level
+    bm_ = _nb(minor, [_code(minor, 'x\n', 0, metadata={'grp': {'p': 1, 'q': 2, 'r': 3}, 'ver': 'v0'})],
+              md={'kernelspec': {'display_name': 'Python 3', 'name': 'python3'}, 'language_info': {'name': 'python', 'version': '3.8.0'}})
+    l = copy.deepcopy(bm_); r = copy.deepcopy(bm_)
+    l['metadata']['kernelspec']['display_name'] = 'Python 3 (conda)'; r['metadata']['kernelspec']['name'] = 'conda-env-py'
+    l['metadata']['language_info']['version'] = '3.9.1'; r['metadata']['language_info']['version'] = '3.10.2'
+    l['cells'][0]['metadata']['grp']['p'] = 10; r['cells'][0]['metadata']['grp']['q'] = 20
+    l['cells'][0]['metadata']['ver'] = 'vL'; r['cells'][0]['metadata']['ver'] = 'vR'
+    out.append(('metadata_conflict_plus_onesided_edits_under_one_key', bm_, l, r))
     # metadata conflicts -> nbdime-conflicts record (cell and notebook level)
     b4 = _nb(minor, [_code(minor, 'x\n', 0, metadata={'k': 1})], md={'title': 't', 'k': 1})
     l = copy.deepcopy(b4); l['cells'][0]['metadata']['k'] = 2; l['metadata']['k'] = 2
@@ -264,6 +288,55 @@ def corpus_triples(prop='C04'):
     return out
 
 
+def output_insert_vs_change_triple(r):
+    """generated version of the A/P, A/R, P/A, R/A output conflicts: one side inserts a fresh output directly in front of
+    base output i (everything else untouched), the other side edits or removes output i"""
+    minor = r.choice([0, 3, 4, 5, 5])
+    used = set()
+    cell = gennb.gen_cell(r, minor, used, rich=True, kind='code')
+    ec = cell.get('execution_count') or r.randint(1, 9); cell['execution_count'] = ec
+    cell['outputs'] = [gennb.gen_output(r, ec) for _ in range(r.choice([1, 2, 3]))]
+    b = {'cells': [gennb.gen_cell(r, minor, used, rich=False) for _ in range(r.choice([0, 1]))] + [cell],
+         'metadata': {}, 'nbformat': 4, 'nbformat_minor': minor}
+    ci = len(b['cells']) - 1; i = r.randrange(len(cell['outputs']))
+    ins = copy.deepcopy(b); ins['cells'][ci]['outputs'].insert(i, gennb.gen_output(r, ec, kind=r.choice(['stream', 'display_data', 'error'])))
+    oth = copy.deepcopy(b)
+    if r.random() < 0.5: how = 'remove'; del oth['cells'][ci]['outputs'][i]
+    else: how = 'modify'; gennb.edit_output(r, oth['cells'][ci]['outputs'][i])
+    if r.random() < 0.5: return ('outins_vs_%s:local_inserts@4.%d' % (how, minor), b, ins, oth)
+    return ('outins_vs_%s:remote_inserts@4.%d' % (how, minor), b, oth, ins)
+
+
+def _leaf_edit(r, v):
+    if isinstance(v, bool): return not v
+    if isinstance(v, int): return v + r.randint(1, 9)
+    if isinstance(v, float): return v + 0.5
+    if isinstance(v, str): return v + r.choice(['-x', ' (new)', '.1'])
+    return r.choice(['replaced', 7])
+
+
+def lifted_patches_triple(r):
+    """a metadata dict (notebook level or cell level) holding a sub-dict G with >= 2 leaves and another key C: local edits
+    one leaf of G, remote another leaf of G (no conflict), and both change C differently (genuine conflict in the same
+    dict, so strategies such as record-conflict lift all decisions of the dict back to one path)"""
+    minor = r.choice([0, 3, 4, 5, 5])
+    b = gennb.gen_notebook(r, minor=minor, ncells=r.choice([1, 2]), rich=False)
+    keys = r.sample(['alpha', 'beta', 'gamma', 'delta', 'x/y', 'name2', 'n'], r.choice([2, 3, 4]))
+    grp = {k: r.choice([1, 2.5, 'text', True, 'python3', 'v1.0']) for k in keys}
+    gname = r.choice(['grp', 'custom', 'kernelspec2', 'slideshow2']); cname = r.choice(['conf', 'ver', 'zz'])
+    nb_level = r.random() < 0.5
+    def md(nb): return nb['metadata'] if nb_level else nb['cells'][0]['metadata']
+    md(b)[gname] = grp; md(b)[cname] = 'c0'
+    if r.random() < 0.4: md(b)['deep'] = {gname: dict(grp)}
+    l = copy.deepcopy(b); rm = copy.deepcopy(b)
+    k1, k2 = r.sample(keys, 2)
+    md(l)[gname][k1] = _leaf_edit(r, grp[k1]); md(rm)[gname][k2] = _leaf_edit(r, grp[k2])
+    if 'deep' in md(b):
+        md(l)['deep'][gname][k1] = _leaf_edit(r, grp[k1]); md(rm)['deep'][gname][k2] = _leaf_edit(r, grp[k2])
+    md(l)[cname] = 'cL'; md(rm)[cname] = 'cR'
+    return ('lifted:%s@4.%d' % ('nb' if nb_level else 'cell', minor), b, l, rm)
+
+
 def gen_triples(r, n, repo, minors_mix=0.15):
     """-> [(name, base, local, remote)]: hand-made (every minor), fixtures, generated"""
     out = corpus_triples('C04')
@@ -272,12 +345,13 @@ def gen_triples(r, n, repo, minors_mix=0.15):
     out += fixture_triples(repo)
     for _ in range(max(6, n // 12)): out.append(upgrade_triple(r))
     for _ in range(max(10, n // 8)): out.append(multi_insert_triple(r))
-    i = 0
-    while len(out) < n:
+    for _ in range(max(8, n // 12)): out.append(output_insert_vs_change_triple(r))
+    for _ in range(max(8, n // 12)): out.append(lifted_patches_triple(r))
+    for i in range(max(40, n // 2)):
         minor = r.choice([0, 1, 2, 3, 4, 4, 5, 5, 5])
         b, l, rm = gennb.gen_triple(r, conflict_bias=0.75, minor=minor, ncells=r.choice([0, 1, 2, 2, 3, 4, 5]))
         name = 'gen%d@4.%d' % (i, minor)
         if minor < 5 and r.random() < minors_mix:
             b, l, rm = vary_minors(r, b, l, rm); name += '+minors%d%d%d' % (b['nbformat_minor'], l['nbformat_minor'], rm['nbformat_minor'])
-        out.append((name, b, l, rm)); i += 1
-    return out[:max(n, 120)]
+        out.append((name, b, l, rm))
+    return out
